@@ -1652,3 +1652,40 @@ Proof.
   apply in_map_iff. exists (mkL t Queued). split; auto. unfold lkey. cbn.
   unfold e_user in Hu. destruct (e_owner t); try discriminate. now rewrite Htxt.
 Qed.
+
+(* ================================================================== the source is the code the model mirrors *)
+Require Import LV.Gen.Gen_sendqueue.
+
+Lemma Gen_sendqueue_consts_ok :
+  req_ack_text = spec_req_ack /\
+  forall o, is_user o = Z.eqb (owner_code o) q_user /\
+            is_user o = negb (Z.eqb (Z.land (owner_code o) q_user) 0) /\
+            is_sm o = negb (Z.eqb (Z.land (owner_code o) q_sm) 0).
+Proof. split; [reflexivity|]. intros []; vm_compute; auto. Qed.
+
+Lemma Gen_sendqueue_send_ok : src_send_counts = true /\ src_send_links_tail = true /\ src_send_piggyback = true.
+Proof. repeat split; reflexivity. Qed.
+
+Lemma Gen_sendqueue_loop_ok :
+  src_loop_write = true /\ src_loop_written_accumulates = true /\ src_loop_wip_then_stop = true /\
+  src_loop_counts = true /\ src_loop_moves_to_smq = true /\ src_loop_head_prev_cleared = true.
+Proof. repeat split; reflexivity. Qed.
+
+Lemma Gen_sendqueue_drop_ok :
+  src_len_body = true /\ src_unlink_body = true /\ src_drop_single_wip = true /\ src_drop_choice = true /\
+  src_drop_skips_wip_head = true /\ src_drop_linked_request = true.
+Proof. repeat split; reflexivity. Qed.
+
+Lemma Gen_sendqueue_ok :
+  (req_ack_text = spec_req_ack /\
+   forall o, is_user o = Z.eqb (owner_code o) q_user /\
+             is_user o = negb (Z.eqb (Z.land (owner_code o) q_user) 0) /\
+             is_sm o = negb (Z.eqb (Z.land (owner_code o) q_sm) 0)) /\
+  (src_send_counts = true /\ src_send_links_tail = true /\ src_send_piggyback = true) /\
+  (src_loop_write = true /\ src_loop_written_accumulates = true /\ src_loop_wip_then_stop = true /\
+   src_loop_counts = true /\ src_loop_moves_to_smq = true /\ src_loop_head_prev_cleared = true) /\
+  (src_len_body = true /\ src_unlink_body = true /\ src_drop_single_wip = true /\ src_drop_choice = true /\
+   src_drop_skips_wip_head = true /\ src_drop_linked_request = true).
+Proof.
+  exact (conj Gen_sendqueue_consts_ok (conj Gen_sendqueue_send_ok (conj Gen_sendqueue_loop_ok Gen_sendqueue_drop_ok))).
+Qed.
